@@ -157,8 +157,8 @@ func (ex *Exec) zero(t types.Type) Value {
 			return conStr("")
 		case u.Kind() == types.UnsafePointer:
 			return Ptr{}
-		case u.Kind() == types.UntypedNil:
-			return nil
+		case u.Kind() == types.UntypedNil, u.Kind() == types.Invalid:
+			return nil // invalid = blank component of a range tuple
 		}
 		unsupported("zero value of basic type %s", u)
 	case *types.Pointer:
